@@ -29,12 +29,15 @@ fn acquisition_order(ops: &[RawRec]) -> Vec<LockId> {
 /// OWNED inputs whose listing order differs from their address order: `&mut` members listed
 /// out of order, and a Vec of boxed collections (heap addresses unrelated to listing order).
 /// Returns (description, acquisition order) of every call, all over the same three locks.
-fn static_orders(tc: &mut Tc<'_>) -> Vec<(String, Vec<LockId>)> {
+fn static_orders(tc: &mut Tc<'_>) -> Vec<Vec<(String, Vec<LockId>)>> {
 	use crate::props::tuplefam::mk_r;
 	use happylock::collection::{BoxedLockCollection, RefLockCollection, RetryingLockCollection};
 	use happylock::ThreadKey;
 	let w = tc.w.clone();
+	// two relations: collections over the plain locks, and everything that goes through the
+	// owned unit (which borrows its members mutably, so the two never coexist)
 	let mut out = Vec::new();
+	let mut out_owned = Vec::new();
 	let (r0, _) = mk_r(tc);
 	let (r1, _) = mk_r(tc);
 	let (r2, _) = mk_r(tc);
@@ -87,8 +90,26 @@ fn static_orders(tc: &mut Tc<'_>) -> Vec<(String, Vec<LockId>)> {
 			locked_order!("Boxed::new_ref(&[a, b, c])", BoxedLockCollection::new_ref(&arr), read);
 			locked_order!("Ref::new(&[a, b, c])", RefLockCollection::new(&arr), read);
 		}
+		{
+			// an owned collection listed out of address order is ONE unit: locked directly and
+			// nested (by reference) in sorting collections, reading and writing, its members
+			// always come in the same (listing) order
+			use happylock::collection::OwnedLockCollection;
+			let [a, b, c] = &mut arr;
+			let owned = OwnedLockCollection::new((c, a));
+			locked_order!("Owned::new((&mut c, &mut a)) locked directly", &owned, read);
+			locked_order!("Boxed::new_ref(&Owned::new((&mut c, &mut a)))", BoxedLockCollection::new_ref(&owned), read);
+			locked_order!("Ref::new(&Owned::new((&mut c, &mut a)))", RefLockCollection::new(&owned), read);
+			locked_order!(
+				"Boxed::try_new((&Owned::new((&mut c, &mut a)), &b))",
+				BoxedLockCollection::try_new((&owned, &*b)).unwrap(),
+				read
+			);
+			let n = out.len();
+			out_owned.extend(out.drain(n - 4..));
+		}
 	}
-	out
+	vec![out, out_owned]
 }
 
 pub fn run(cfg: &RunCfg) -> Report {
@@ -134,21 +155,23 @@ pub fn run(cfg: &RunCfg) -> Report {
 			let mut junk: Vec<Box<[u8]>> = Vec::new();
 			// static section: constructors over owned inputs listed out of address order
 			{
-				let mut sbefore: HashMap<(LockId, LockId), String> = HashMap::new();
-				for (d, order) in static_orders(tc) {
-					calls += 1;
-					for x in 0..order.len() {
-						for y in x + 1..order.len() {
-							let (a, b) = (order[x], order[y]);
-							pairs_checked += 1;
-							if let Some(other) = sbefore.get(&(b, a)) {
-								w.violate(
-									"C08",
-									"order_inversion",
-									format!("locks {a} and {b}: '{d}' acquired {a} before {b} (order {:?}) but '{other}' acquired {b} before {a}", order),
-								);
+				for group in static_orders(tc) {
+					let mut sbefore: HashMap<(LockId, LockId), String> = HashMap::new();
+					for (d, order) in group {
+						calls += 1;
+						for x in 0..order.len() {
+							for y in x + 1..order.len() {
+								let (a, b) = (order[x], order[y]);
+								pairs_checked += 1;
+								if let Some(other) = sbefore.get(&(b, a)) {
+									w.violate(
+										"C08",
+										"order_inversion",
+										format!("locks {a} and {b}: '{d}' acquired {a} before {b} (order {:?}) but '{other}' acquired {b} before {a}", order),
+									);
+								}
+								sbefore.entry((a, b)).or_insert_with(|| d.clone());
 							}
-							sbefore.entry((a, b)).or_insert_with(|| d.clone());
 						}
 					}
 				}
@@ -187,7 +210,20 @@ pub fn run(cfg: &RunCfg) -> Report {
 							panic: false,
 						};
 						tc.last_ops.clear();
+						// now and then a member is write-held by a holder that lets go once the
+						// acquirer blocks on it: the order must not depend on what is free
+						let contended = rr.chance(1, 3);
+						if contended {
+							let ids = expected_ids(tc.arena, &acq.target);
+							if !ids.is_empty() {
+								let victim = ids[rr.below(ids.len() as u32) as usize];
+								w.phantom_hold(victim, Mode::Excl, 0, true);
+							}
+						}
 						tc.run_acq(&acq);
+						if contended {
+							w.phantom_release_all();
+						}
 						calls += 1;
 						// unrelated allocations between constructions
 						if rr.chance(1, 3) {
